@@ -7,6 +7,7 @@ From SCC Require Import Lang.CoreSyn Model.Backend Model.Uniquify Model.Focus Mo
      Sem.AxSem Sem.CoreSem Proof.SubstProof Proof.FocusTheorems Proof.FocusExtra Proof.FocusExamples Proof.FocusSem
      Proof.FocusKont Proof.FocusRel Proof.FocusSim Proof.FocusRun Proof.FocusFrag Proof.FocusPres Proof.FocusPresExamples
      Proof.UqAeq Proof.UqPres Proof.UqCompose.
+From SCC Require Import Model.FocusGuard.
 Import ListNotations.
 
 (* ---- uniqueness of binders -------------------------------------------------------------------
